@@ -16,6 +16,7 @@ type Opts struct {
 	NoWideIDs   bool // every struct keeps max id - min id < 64*(nfields/64+1) (avoids a listed decoder defect by construction)
 	EnumI32Only bool // enum fields only on int32 kinds
 	Small       bool // small values (encodings of a few hundred bytes)
+	NoMapBool1  bool // callers' flag: do not announce BOOL as 1 in map headers (a listed defect)
 	NoUnion     bool
 	// Avoided counts how often a restriction above changed a draw (reported as exclusions).
 	Avoided map[string]int
